@@ -720,7 +720,20 @@ class Body:
                     if ol is not None:
                         out.extend(self.trace_local(ol, seen, through_cast))
                     elif o['k'] in ('copy', 'move'):
-                        out.append(('place', p, o['place']))
+                        # `(x as V).i` where x was built as `V(.., y_i, ..)` in this body is y_i (aggregate folding;
+                        # common after A-DESUGAR / A-INLINE)
+                        folded = self._fold_projection(o['place'])
+                        if folded:
+                            for fo in folded:
+                                fl_ = op_local(fo)
+                                if fl_ is not None:
+                                    out.extend(self.trace_local(fl_, seen, through_cast))
+                                elif fo['k'] == 'const':
+                                    out.append(('const', p, fo))
+                                else:
+                                    out.append(('place', p, fo['place']))
+                        else:
+                            out.append(('place', p, o['place']))
                     else:
                         out.append(('const', p, o))
                 else:
@@ -730,6 +743,45 @@ class Body:
         if 1 <= l <= self.arg_count:
             out.append(('param', l))
         return out
+
+    def _fold_projection(self, pl):
+        """operand stored at field i of variant V when place pl = (x as V).i (or x.i for a struct/tuple) and x has a
+        single definition that is the matching aggregate; else None"""
+        proj = [e for e in pl['p']]
+        if not proj or any(e['k'] == 'deref' for e in proj):
+            return None
+        var = None
+        idx = None
+        rest = []
+        k = 0
+        if proj[0]['k'] == 'downcast':
+            var = proj[0].get('variant')
+            k = 1
+        if len(proj) <= k or proj[k]['k'] != 'field':
+            return None
+        idx = proj[k]['i']
+        rest = proj[k + 1:]
+        if rest:
+            return None
+        ds = self.defs.get(pl['l'], [])
+        if not ds:
+            return None
+        out = []
+        for d in ds:
+            # every definition must be an aggregate; reading `(x as V).i` implies x is a V, so only the
+            # V-aggregates can be the source (the others belong to paths on which this read does not happen)
+            if d[1] != 'assign' or d[2]['place']['p'] or d[2]['rv']['k'] != 'agg':
+                return None
+            rv = d[2]['rv']
+            if var is not None and rv.get('variant') != var:
+                continue
+            if var is None and len(ds) != 1:
+                return None
+            ops = rv.get('ops') or []
+            if idx >= len(ops):
+                return None
+            out.append(ops[idx])
+        return out or None
 
     def switch_cond(self, block):
         """Describe what the switch in `block` tests.
@@ -979,6 +1031,16 @@ class Body:
                     elif not origins:
                         origins.append(o3)
             for o in self.trace_local(al):
+                if o[0] == 'call':
+                    # the residual was built in place (inlined helper / desugared adaptor, folded by trace_local)
+                    if 'FromResidual' in o[1].name and o[1].name.endswith('::from_residual'):
+                        origins.extend(residual_origins(o[1], depth + 1))
+                    elif not o[1].name.endswith('::branch'):
+                        origins.append(o[1])
+                    continue
+                if o[0] == 'rv' and o[2]['k'] == 'agg' and o[2].get('adt') == 'std::result::Result' and o[2].get('variant') == 'Err' and o[2].get('ops'):
+                    payload_origins(op_local(o[2]['ops'][0]), depth + 1)
+                    continue
                 if o[0] == 'place':
                     base = o[2]['l']
                     for (dp, kind, data) in self.defs.get(base, []):
